@@ -1,4 +1,5 @@
 pub mod framework;
+pub mod l2;
 pub mod props;
 pub mod rng;
 pub mod simcfg;
